@@ -314,7 +314,9 @@ impl Disassembler {
                     }
                     if let Some(m) = self.std_patt.find(&op.operand_snippet) {
                         let mut operand_bytes = usize::from_str_radix(m.as_str(),10).expect(super::RCH);
-                        if op.m_sensitive && !self.m8bit || op.x_sensitive && !self.x8bit {
+                        // only the 16 bit processors have M and X status bits, the others always take one byte
+                        let wide_cpu = matches!(proc,ProcessorType::_65802 | ProcessorType::_65c816);
+                        if wide_cpu && (op.m_sensitive && !self.m8bit || op.x_sensitive && !self.x8bit) {
                             operand_bytes += 1;
                             new_op.operand_snippet = "#2".to_string();
                         }
